@@ -232,7 +232,12 @@ def shed_of(rec: dict[str, Any]) -> str:
     return "ShedNone"
 
 
-def run(ctx: Any) -> None:
+def replay(ctx: Any, data: dict[str, Any]) -> None:
+    """Re-run exactly the recorded history (transport, http cfg, logger level, formatter cap, items)."""
+    run(ctx, only=data.get("replay", data))
+
+
+def run(ctx: Any, only: dict[str, Any] | None = None) -> None:
     import sys
 
     stubs = "/verif/harness/stubs"
@@ -265,7 +270,7 @@ def run(ctx: Any) -> None:
         "model arm and message class, the rest is seeded random; distinct by (transport, cfg, items); non-trivial = at least one request was dispatched"
     )
     histories: list[tuple[str, list[Any]]] = scenario_items()
-    n_rand = 30 if ctx.tier == "quick" else 160
+    n_rand = 30 if ctx.tier == "quick" else 200
     for _ in range(n_rand):
         fam = ctx.rng.choice(["http", "http", "pipe"])
         histories.append((fam, [gen_item(ctx.rng, fam, False) for _ in range(ctx.rng.randrange(1, 4))]))
@@ -351,7 +356,18 @@ def run(ctx: Any) -> None:
             else:
                 prog, sc = it[1], it[2]
                 tr = res["traces"][rq["item"]]
-                client_err.append(bool(tr) and tr[-1][0] == "error")
+                # Socket family, stream without header: the init outcome rides the output stream and is only seen at the
+                # first read (C01: socket-headerless-init-outcome-unobserved-until-first-read).  A script that reads nothing
+                # (0 inputs / 0 batches, then close or cancel) observes NO outcome: nothing to compare the status with
+                # (the record is still compared with the model and with the program's exception).
+                reads_nothing = sc[0] != "unary" and not sc[1].endswith("_h") and (
+                    (sc[0] == "exchange" and sc[3] == 0) or (sc[0] == "iterate" and sc[4] != "stop" and sc[3] == 0)
+                )
+                if reads_nothing and not (bool(tr) and tr[-1][0] == "error"):
+                    client_err.append(None)
+                    ctx.count("socket_scripts_without_any_read(client outcome unobserved)")
+                else:
+                    client_err.append(bool(tr) and tr[-1][0] == "error")
                 dispatched.append(True)
                 if sc[0] == "unary":
                     r = prog["result"]
@@ -452,16 +468,22 @@ def run(ctx: Any) -> None:
         case_meta.append({**repl_base, "requests": [{k: v for k, v in rq.items() if k != "calls"} for rq in reqs], "records": recs})
 
     combos_full = [(False, 1 << 20), (True, 1 << 20), (True, 1100), (False, 300), (True, 300)]
+    n_scen = len(histories) - n_rand
+    if only is not None and "items" in only and "transport" in only:
+        one(only["transport"], only.get("http_cfg"), bool(only.get("debug")), int(only.get("formatter_cap", 1 << 20)), only["items"])
+        histories = []
     for hi, (fam, items) in enumerate(histories):
         kinds = ["http", "pipe"] if fam == "both" else [fam]
         for kind in kinds:
             if ctx.tier == "quick":
                 combos = [combos_full[hi % len(combos_full)]] if hi >= 8 else combos_full[:3]
-            else:
+            elif hi < n_scen:
                 combos = combos_full
-            for debug, cap in combos:
+            else:
+                combos = [combos_full[hi % len(combos_full)], combos_full[(hi + 2) % len(combos_full)]]
+            for ci, (debug, cap) in enumerate(combos):
                 cfgs: list[dict[str, Any] | None] = [None]
-                if kind == "http" and (ctx.tier != "quick" or hi % 4 == 0):
+                if kind == "http" and ((ctx.tier != "quick" and ci < 2) or (ctx.tier == "quick" and hi % 4 == 0)):
                     cfgs.append({"max_response_bytes": 1})
                 has_stream = any(it[0] == "script" and it[2][0] != "unary" for it in items)
                 if kind == "http" and has_stream and (debug, cap) == combos[0]:
@@ -487,10 +509,13 @@ def run(ctx: Any) -> None:
         cases,
         IN_TY,
         PROJ_TY,
-        shard=60,
+        shard=40,
     )
     ctx.count("model_cases", len(cases))
-    ctx.obligation("correspondence:M_AccessLog.run_case", "correspondence", ok and not bad, clog if not ok else f"{len(bad)} of {len(cases)} histories disagree")
+    ctx.obligation(
+        "correspondence:M_AccessLog.run_case", "correspondence", ok and not bad,
+        (clog.strip() or "a shard of case files was not evaluated (coqc produced no output: killed or timed out)") if not ok else f"{len(bad)} of {len(cases)} histories disagree",
+    )
     for i in bad[:5]:
         shown = ctx.coq_show(HDR, f"run_case {cases[i][0]}")
         ctx.violation("model-impl-disagree", "implementation and model produce different records", {**case_meta[i], "impl_projection": cases[i][1][:1500], "model": shown[-1500:]})
